@@ -1,0 +1,12 @@
+//go:build verif
+// +build verif
+
+package ffg
+
+import "math/big"
+
+// VerifModulusRaw returns the package's own modulus object (not a copy).
+func VerifModulusRaw() *big.Int { return &_modulus }
+
+// VerifQElement returns the limbs of the modulus constant and of rSquare.
+func VerifQElement() (Element, Element) { return qElement, rSquare }
